@@ -91,7 +91,7 @@ def main():
                  "2 = ANALYSIS-UNDECIDED/ANALYSIS-ERROR (unmodelled construct, vanished anchor) - never a silent pass. Genuine defects found "
                  "on the pinned tree were repaired by fix: commits in /repo or are listed in known_findings.json. Self-validation (thorough tier, "
                  "tools/): 570 corpus variants, 32 whole-package behaviour-preserving rewrite sweeps, 235 independently written breaking changes "
-                 "(seeded/: 186 reported as VIOLATION, 49 recorded undecided with the reason, none silent) and 120 independently written "
+                 "(seeded/: 187 reported as VIOLATION, 48 recorded undecided with the reason, none silent) and 120 independently written "
                  "behaviour-preserving rewrites (neutral/: none reported) - DESIGN.md 8.9-8.13.",
         "not_applicable": na,
     }
